@@ -17,7 +17,7 @@ theorem won_exec (hS : Struct reg s) (hO : Orig s) :
   all_goals grind [Pc.wonSrc]
 
 theorem won_begin (hS : Struct reg s) (hO : Orig s) (hi : s.pc t = .idle) :
-    ∀ t' a, ((begin reg s t).pc t').wonSrc = some a → 1 ≤ (begin reg s t).wins a := by
+    ∀ t' a, ((begin cfg reg s t).pc t').wonSrc = some a → 1 ≤ (begin cfg reg s t).wins a := by
   have g0 := hO.won
   have g0t := hO.won t
   begin_cases
@@ -39,7 +39,7 @@ theorem paint_exec (hS : Struct reg s) (hO : Orig s) :
   all_goals grind [chainUp_sound, anc_upd_par]
 
 theorem paint_begin (hS : Struct reg s) (hO : Orig s) (hi : s.pc t = .idle) :
-    ∀ t' src i x chain rest, (begin reg s t).pc t' = .cPaint src i x chain rest → ∀ e ∈ chain, Anc (begin reg s t).par e src := by
+    ∀ t' src i x chain rest, (begin cfg reg s t).pc t' = .cPaint src i x chain rest → ∀ e ∈ chain, Anc (begin cfg reg s t).par e src := by
   have g0 := hO.paint
   have g0t := hO.paint t
   have g1 := hS.createdPar
@@ -64,7 +64,7 @@ theorem copy_exec (hS : Struct reg s) (hO : Orig s) :
   all_goals grind [Pc.copyVal, justified_upd_wins, justified_upd_par]
 
 theorem copy_begin (hS : Struct reg s) (hO : Orig s) (hi : s.pc t = .idle) :
-    ∀ t' p, ((begin reg s t).pc t').copyVal = some (p, true) → Justified (begin reg s t).par (begin reg s t).wins p := by
+    ∀ t' p, ((begin cfg reg s t).pc t').copyVal = some (p, true) → Justified (begin cfg reg s t).par (begin cfg reg s t).wins p := by
   have g0 := hO.copy
   have g0t := hO.copy t
   have g1 := hO.can
